@@ -47,6 +47,7 @@ void sched_point_here(void);                 /* explicit scheduling point */
 int  sched_self(void);                       /* scheduler thread id of the caller (-1 if unknown) */
 int  sched_active(void);
 int  sched_steps(void);
+int  sched_unfinished_others(void);          /* threads other than the caller that have not returned from their start routine */
 
 #ifdef __cplusplus
 }
